@@ -147,6 +147,8 @@ pub fn main(args: &Args) {
                 }
                 id += 1;
                 emit_case(&case, id, &mut out);
+            } else if c.get("ev").is_some() {
+                // any other recorded event of a replayed case: the case is re-run from its reset / case line only
             } else if c.get("text").is_some() && c.get("mode").is_none() {
                 // an input text exported by MC_HtmlParser
                 id += 1;
@@ -161,7 +163,7 @@ pub fn main(args: &Args) {
                 case["ctx"]["attrs"] = json!([]);
                 case["chunks"] = json!([]);
                 emit_case(&case, id, &mut out);
-            } else if c.get("mode").is_some() {
+            } else if c.get("mode").is_some() && c.get("chunks").is_some() {
                 id += 1;
                 emit_case(&c, id, &mut out);
             }
